@@ -87,6 +87,22 @@ def gen_cases(tier, seed):
         c = (np.array([0.8, -0.6]) * Amax * float([3.0, 0.5][k % 2])).tolist()
         cases.append({"layer": "L2", "device": dev, "options": o, "B": B, "c": c, "time_dependent": False, "pulse": False, "together": True,
                       "currents": S.current_spec(rng, dev, o, "const" if nt else "none", strength=0.15), "cost": 20})
+    for k in range(1 if tier == "quick" else 4):
+        # transport current with screening in ZERO applied field: the potential is exactly zero in one gauge and a constant in the
+        # other; the self-field of the current is screened in both
+        dev = zoo.gen_device(rng, n_terminals=2, n_holes=0, probes=0, size="tiny", smooth=0, gamma=float([1.0, 10.0][k % 2]))
+        dev["layer"]["lam"], dev["layer"]["d"] = 2.0, 0.1
+        o = S.base_options(rng, adaptive=bool(k % 2), steps=30, screening=True)
+        o.update(dt_max=0.02, dt_init=min(o["dt_init"], 5e-3), screening_tolerance=1e-6, max_iterations_per_step=5000, terminal_psi=[0.0, "none"][k % 2])
+        if not o["adaptive"]:
+            o.update(dt_init=4e-3, solve_time=0.1)
+        else:
+            o["solve_time"] = 0.3
+        sc = S._scales(dev, o)
+        Aref = 0.3 * sc.Bc2 / sc.fu * dev["film"].get("w", 4.0) / 2
+        c = (np.array([0.6, 0.8]) * Aref * float([1.0, 10.0][(k // 2) % 2])).tolist()
+        cases.append({"layer": "L2", "device": dev, "options": o, "B": 0.0, "c": c, "time_dependent": False, "pulse": False, "zero_field_bias": True,
+                      "currents": S.current_spec(rng, dev, o, "const", strength=0.4), "cost": 60})
     nvar = 3 if tier == "quick" else 12
     for k in range(nvar):
         # variants of the run-level pair: the device went through a file (saved and re-loaded) before both runs; or both runs CONTINUE
@@ -242,6 +258,15 @@ def _l1(spec):
                     viol("supercurrent_not_gauge_invariant", {"which": name, "rel": d, "pinned": fixed is not None})
             if not np.isrealobj(J2):
                 viol("supercurrent_not_real", {})
+            # an order parameter WITHOUT a phase, handed over as a real-typed array (np.ones, an array of amplitudes): its current in
+            # the potential A' is that of the complex array with the same values, and equals the current of (A, psi / g) = ...
+            amp = np.abs(psi) + 0.1  # float64
+            cnt("real_typed_order_parameter_checks")
+            Jr = np.asarray(mo2.get_supercurrent(amp))
+            Jr_ref = fv.supercurrent(amp.astype(complex), em.edges, em.edge_lengths, em.directions, A2)
+            dr = float(np.max(np.abs(Jr - Jr_ref))) / (float(np.max(np.abs(Jr_ref))) + 1e-300)
+            if dr > 1e-10:
+                viol("supercurrent_not_gauge_invariant", {"which": "real-typed order parameter in a non-zero potential", "rel": dr, "pinned": fixed is not None})
             # pure-gauge potential vs exactly zero potential, through the in-place refresh path:
             # (A = grad chi, g psi) is gauge equivalent to (A = 0, psi)
             Apure = (dchi / d2)[:, None] * em.directions
